@@ -118,12 +118,36 @@ func vOp(kind int, ref *vRef) ovsdb.Operation {
 		}
 		ref.conf = keep
 		return ovsdb.Operation{Op: ovsdb.OperationMutate, Table: "Root", Mutations: []ovsdb.Mutation{{Column: "conf", Mutator: ovsdb.MutateOperationDelete, Value: vStrSetOvs([]string{k})}}}
+	case 10: // one update naming two columns: the set (possibly with its current value) and the integer
+		ls := vStrSet(rt.Choose(3), false)
+		v := rt.Int()
+		ref.labels = vCloneStrs(ls)
+		ref.num = v
+		return ovsdb.Operation{Op: ovsdb.OperationUpdate, Table: "Root", Row: ovsdb.Row{"labels": vStrSetOvs(ls), "num": v}}
+	case 11: // one update naming the map (possibly with its current value) and the integer
+		gm := map[interface{}]interface{}{}
+		ref.conf = nil
+		n := rt.Choose(3)
+		var kvs []vKV
+		for i := 0; i < n; i++ {
+			kvs = append(kvs, vKV{rt.String(), rt.String()})
+		}
+		if n == 2 {
+			rt.Assume(kvs[0].k != kvs[1].k)
+		}
+		for _, e := range kvs {
+			gm[e.k] = e.v
+		}
+		ref.conf = kvs
+		v := rt.Int()
+		ref.num = v
+		return ovsdb.Operation{Op: ovsdb.OperationUpdate, Table: "Root", Row: ovsdb.Row{"conf": ovsdb.OvsMap{GoMap: gm}, "num": v}}
 	default:
 		return ovsdb.Operation{Op: ovsdb.OperationDelete, Table: "Root"}
 	}
 }
 
-const vNumOps = 10
+const vNumOps = 12
 
 func vSymRootMulti(max int) *fix.Root {
 	r := &fix.Root{UUID: fix.U1, Name: "r1", Mode: "a"}
@@ -259,9 +283,11 @@ func verifC11(k, max int, opMenu []int) {
 
 var vAllOps = []int{0, 1, 2, 3, 4, 5, 6, 7, 8, 9}
 
-func VerifC11K2()     { verifC11(2, 1, vAllOps) }
-func VerifC11K3()     { verifC11(3, 1, vAllOps) }
-func VerifC11K2Sets() { verifC11(2, 2, []int{2, 5, 6, 9}) }
-func VerifC11K3Sets() { verifC11(3, 2, []int{2, 5, 6}) }
-func VerifC11K2Maps() { verifC11(2, 2, []int{3, 7, 8, 9}) }
-func VerifC11K3Maps() { verifC11(3, 1, []int{3, 7, 8}) }
+func VerifC11K2()      { verifC11(2, 1, vAllOps) }
+func VerifC11K3()      { verifC11(3, 1, vAllOps) }
+func VerifC11K1Multi() { verifC11(1, 2, []int{10, 11}) }
+func VerifC11K2Multi() { verifC11(2, 1, []int{10, 11}) }
+func VerifC11K2Sets()  { verifC11(2, 2, []int{2, 5, 6, 9}) }
+func VerifC11K3Sets()  { verifC11(3, 2, []int{2, 5, 6}) }
+func VerifC11K2Maps()  { verifC11(2, 2, []int{3, 7, 8, 9}) }
+func VerifC11K3Maps()  { verifC11(3, 1, []int{3, 7, 8}) }
